@@ -233,6 +233,7 @@ pub struct World {
     handles: Vec<(u64, u64, tokio::task::JoinHandle<()>)>,
     epoch: u64,
     pub trace: Arc<Mutex<Vec<Value>>>,
+    t0: tokio::time::Instant,
 }
 
 impl World {
@@ -293,7 +294,8 @@ impl World {
         settle().await;
     }
 
-    fn note(&mut self, v: Value) {
+    fn note(&mut self, mut v: Value) {
+        v["t_ms"] = json!(self.t0.elapsed().as_millis() as u64);
         self.trace.lock().unwrap().push(v);
     }
 
@@ -318,10 +320,11 @@ impl World {
                 let epoch = self.epoch;
                 let responses = Arc::clone(&self.responses);
                 let trace = Arc::clone(&self.trace);
+                let t0 = self.t0;
                 let h = tokio::spawn(async move {
                     let resp = mgr.handle_htlc(&req).await;
                     let v = serde_json::to_value(&resp).unwrap_or(Value::Null);
-                    trace.lock().unwrap().push(json!({"event": "response", "k": k, "epoch": epoch, "response": v}));
+                    trace.lock().unwrap().push(json!({"event": "response", "k": k, "epoch": epoch, "response": v, "t_ms": t0.elapsed().as_millis() as u64}));
                     responses.lock().unwrap().push(json!({"k": k, "epoch": epoch, "response": v}));
                 });
                 self.handles.push((epoch, k, h));
@@ -513,6 +516,7 @@ pub fn run(input: &Value) -> Value {
             handles: vec![],
             epoch: 0,
             trace: Arc::new(Mutex::new(vec![])),
+            t0: tokio::time::Instant::now(),
         };
         w.sim.height = num(&input["config"]["height"], 0);
         for op in input["setup"].as_array().cloned().unwrap_or_default() {
